@@ -333,16 +333,26 @@ def main(argv):
             fs = [('oracle-crash', f'{type(e).__name__}: {e} :: {traceback.format_exc()[-800:]}')]
         for clause, msg in fs:
             findings.append((k, clause, msg))
-        if prop.nontrivial(c, o):
-            nontriv.add(prop.case_key(c) if hasattr(prop, 'case_key') else json.dumps(c, sort_keys=True, default=str))
-        if hasattr(prop, 'classify'):
-            for tag in prop.classify(c, o):
-                hist[tag] = hist.get(tag, 0) + 1
+        try:       # bookkeeping must never turn an unexpected implementation output into a harness failure
+            if prop.nontrivial(c, o):
+                nontriv.add(prop.case_key(c) if hasattr(prop, 'case_key') else json.dumps(c, sort_keys=True, default=str))
+            if hasattr(prop, 'classify'):
+                for tag in prop.classify(c, o):
+                    hist[tag] = hist.get(tag, 0) + 1
+        except Exception:
+            hist['(unclassifiable output)'] = hist.get('(unclassifiable output)', 0) + 1
 
     # 5. model vs implementation
     terms, idxmap = [], []
     for k, (c, o) in enumerate(zip(cases, outs)):
-        t = prop.coq_term(c, o)
+        try:
+            t = prop.coq_term(c, o)
+        except Exception as e:
+            # the implementation's output is so far from what the model expects that it cannot even be rendered for the tie
+            # (e.g. an asymmetric edge list): that is a disagreement with a concrete input, not a harness failure
+            findings.append((k, 'tie/output-not-renderable', f'the output of the implementation cannot be handed to the model: {type(e).__name__}: {e} :: '
+                             f'{traceback.format_exc()[-500:]}'))
+            t = None
         if t is None:
             excluded += 1
             continue
@@ -359,7 +369,10 @@ def main(argv):
     extra_checks = []
     if ok_build and hasattr(prop, 'extra_coq'):
         # per-run Coq obligations (certificates); list of (name, ok, detail)
-        extra_checks = prop.extra_coq(cases, outs, os.path.join(BUILD, pid)) or []
+        try:
+            extra_checks = prop.extra_coq(cases, outs, os.path.join(BUILD, pid)) or []
+        except Exception as e:
+            extra_checks = [('per-run certificates', False, f'{type(e).__name__}: {e} :: {traceback.format_exc()[-600:]}')]
 
     # 6. decide
     known = load_known(pid)
@@ -451,7 +464,10 @@ def main(argv):
     # 7. evidence
     samples = []
     for k in list(range(min(3, len(cases)))):
-        samples.append({'case': compact(prop.sample(cases[k], outs[k]) if hasattr(prop, 'sample') else cases[k])})
+        try:
+            samples.append({'case': compact(prop.sample(cases[k], outs[k]) if hasattr(prop, 'sample') else cases[k])})
+        except Exception:
+            samples.append({'case': compact(cases[k])})
     trusted = ['Coq 8.16.1 kernel + vm_compute (no native_compute)',
                'correspondence harness /verif/harness (generators, canonicalisation, guard bands)']
     trusted += [f'axiom: {a}' for a in axioms]
